@@ -130,6 +130,9 @@ def run_recipe(acc: Acc, group: str, label: str, recipe: dict, d: int) -> None:
         ex, im = fl.FllExporter(), fl.FllImporter()
         T1 = ex.to_string(E)
         acc.transitions += 1
+        if ex.to_string(E) != T1:
+            acc.violate("not-repeatable", {"group": group}, case, T1[:200], "differs", f"[{label}] d={d}: exporting the same engine twice gives different text")
+            return
         try:
             E2 = im.from_string(T1)
         except Exception as exn:  # noqa: BLE001
